@@ -1,898 +1,3 @@
-//! C02 — StableGraph keeps every surviving index valid and its bookkeeping exact.
-//! Engine E1: real `StableGraph<u16,u16,Ty,Ix>` in lockstep with `RefMulti` (stable policy).
-use petgraph::graph::{EdgeIndex, Graph, IndexType, NodeIndex};
-use petgraph::stable_graph::StableGraph;
-use petgraph::visit::{EdgeIndexable, EdgeRef, IntoEdgeReferences, NodeIndexable};
-use petgraph::{Directed, EdgeType, Undirected};
-use serde::{Deserialize, Serialize};
-use vh::e1::{self, Limits, Machine, StepErr};
-use vh::e2::{main_check, Part, Spec};
-use vh::gbat::err;
-use vh::guard::guarded;
-use vh::multi_battery;
-use vh::refmodel::multi::RefMulti;
-
-const END: usize = usize::MAX;
-
-#[derive(Clone, Debug, Serialize, Deserialize)]
-enum Op {
-    AddNode(u16),
-    TryAddNode(u16),
-    AddEdge(usize, usize, u16),
-    TryAddEdge(usize, usize, u16),
-    UpdateEdge(usize, usize, u16),
-    TryUpdateEdge(usize, usize, u16),
-    RemoveNode(usize),
-    RemoveEdge(usize),
-    NodeWeightMut(usize, u16),
-    EdgeWeightMut(usize, u16),
-    IndexMutNode(usize, u16),
-    IndexMutEdge(usize, u16),
-    IndexTwice(u8, usize, usize),
-    WeightsMutFlip(bool),
-    Reverse,
-    Clear,
-    ClearEdges,
-    RetainNodes(u16),
-    RetainEdges(u16),
-    RetainAll,
-    Map,
-    FilterMap(u8, u8),
-    ExtendWithEdges(Vec<(usize, usize, u16)>),
-    FromEdges(Vec<(usize, usize, u16)>),
-    CloneOp,
-    CloneFrom,
-    /// StableGraph::from(Graph::from(sg)): compacts, order preserving
-    ViaGraph,
-    BuildAddNode(u16),
-    BuildAddEdge(usize, usize, u16),
-    BuildUpdateEdge(usize, usize, u16),
-}
-
-#[derive(Clone)]
-enum G<Ix: IndexType> {
-    D(StableGraph<u16, u16, Directed, Ix>),
-    U(StableGraph<u16, u16, Undirected, Ix>),
-}
-
-#[derive(Clone)]
-struct St<Ix: IndexType> {
-    g: G<Ix>,
-    m: RefMulti,
-    /// highest node / edge index ever handed out + 1 (raw slot bound known to the model)
-    hi: (usize, usize),
-}
-
-struct M<Ix> {
-    ixname: &'static str,
-    max_nodes: usize,
-    max_edges: usize,
-    /// raw slots (highest index + 1) allowed for nodes / edges
-    max_slots: (usize, usize),
-    fill: Option<(usize, usize, bool)>,
-    full_alphabet: bool,
-    _p: std::marker::PhantomData<fn() -> Ix>,
-}
-
-fn ni<Ix: IndexType>(a: usize) -> NodeIndex<Ix> {
-    if a == END {
-        NodeIndex::end()
-    } else {
-        NodeIndex::new(a)
-    }
-}
-fn ei<Ix: IndexType>(a: usize) -> EdgeIndex<Ix> {
-    if a == END {
-        EdgeIndex::end()
-    } else {
-        EdgeIndex::new(a)
-    }
-}
-fn ix_max<Ix: IndexType>() -> usize {
-    <Ix as IndexType>::max().index()
-}
-
-/// abstract content of a StableGraph read through its public API
-fn read_structure<Ty: EdgeType, Ix: IndexType>(g: &StableGraph<u16, u16, Ty, Ix>) -> Result<RefMulti, String> {
-    let mut m = RefMulti::new(Ty::is_directed());
-    let nb = g.node_bound();
-    let eb = g.edge_bound();
-    m.nodes = (0..nb).map(|i| g.node_weight(NodeIndex::new(i)).cloned()).collect();
-    m.out = vec![vec![]; nb];
-    m.inn = vec![vec![]; nb];
-    m.edges = (0..eb).map(|e| g.edge_endpoints(EdgeIndex::new(e)).map(|(s, t)| (s.index(), t.index(), *g.edge_weight(EdgeIndex::new(e)).unwrap_or(&9999)))).collect();
-    for e in m.edges.iter().flatten() {
-        if e.0 >= nb || e.1 >= nb || m.nodes[e.0].is_none() || m.nodes[e.1].is_none() {
-            return Err("a live edge has an endpoint that is not a live node".into());
-        }
-    }
-    for a in 0..nb {
-        if m.nodes[a].is_none() {
-            continue;
-        }
-        // stored orientation lists: for directed graphs edges_directed gives them directly;
-        // for undirected ones split the incident edges by stored orientation
-        if Ty::is_directed() {
-            m.out[a] = g.edges_directed(NodeIndex::new(a), petgraph::Direction::Outgoing).map(|r| r.id().index()).collect();
-            m.inn[a] = g.edges_directed(NodeIndex::new(a), petgraph::Direction::Incoming).map(|r| r.id().index()).collect();
-        } else {
-            for r in g.edges(NodeIndex::new(a)) {
-                let e = r.id().index();
-                let (s, t) = match m.edges.get(e).cloned().flatten() {
-                    Some(x) => (x.0, x.1),
-                    None => return Err("an incidence list names an edge that is not live".into()),
-                };
-                if s == a {
-                    m.out[a].push(e);
-                }
-                if t == a {
-                    m.inn[a].push(e);
-                }
-            }
-        }
-    }
-    m.trim();
-    m.check_self().map_err(|e| format!("structure read through the public API is not a consistent multigraph: {}", e))?;
-    Ok(m)
-}
-
-fn normalized(m: &RefMulti) -> RefMulti {
-    let mut m = m.clone();
-    m.trim();
-    if !m.directed {
-        for l in m.out.iter_mut().chain(m.inn.iter_mut()) {
-            l.sort();
-        }
-    }
-    m
-}
-
-macro_rules! on {
-    ($s:expr, $g:ident => $body:expr) => {
-        match &mut $s.g {
-            G::D($g) => $body,
-            G::U($g) => $body,
-        }
-    };
-}
-macro_rules! on_ref {
-    ($s:expr, $g:ident => $body:expr) => {
-        match &$s.g {
-            G::D($g) => $body,
-            G::U($g) => $body,
-        }
-    };
-}
-
-/// index sequences handed out by a clone: reveals both free lists (forward and backward links)
-fn probes<Ty: EdgeType, Ix: IndexType>(g: &StableGraph<u16, u16, Ty, Ix>, hi: (usize, usize), deep: bool) -> Result<Vec<u8>, String> {
-    let mut out: Vec<u8> = vec![];
-    let vac_n = hi.0.saturating_sub(g.node_count()) + 1;
-    let vac_e = hi.1.saturating_sub(g.edge_count()) + 1;
-    let room_n = ix_max::<Ix>().saturating_sub(g.node_count());
-    let room_e = ix_max::<Ix>().saturating_sub(g.edge_count());
-    let mut c = g.clone();
-    let mut handed = vec![];
-    for _ in 0..vac_n.min(room_n) {
-        let i = c.add_node(0).index();
-        handed.push(i);
-        out.extend_from_slice(&(i as u16).to_le_bytes());
-    }
-    out.push(0xfd);
-    if let Some(&p) = handed.first() {
-        for _ in 0..vac_e.min(room_e) {
-            let e = c.add_edge(NodeIndex::new(p), NodeIndex::new(p), 0).index();
-            out.extend_from_slice(&(e as u16).to_le_bytes());
-        }
-    } else if g.node_count() > 0 {
-        let p = g.node_indices().next().unwrap();
-        for _ in 0..vac_e.min(room_e) {
-            let e = c.add_edge(p, p, 0).index();
-            out.extend_from_slice(&(e as u16).to_le_bytes());
-        }
-    }
-    out.push(0xfc);
-    if deep {
-        // backward links of the node free list: occupy each vacant index in the middle, then probe again
-        for v in 0..hi.0 {
-            if !g.contains_node(NodeIndex::new(v)) {
-                let mut c = g.clone();
-                c.extend_with_edges([(NodeIndex::<Ix>::new(v), NodeIndex::<Ix>::new(v), 0u16)]);
-                for _ in 0..vac_n.min(room_n).saturating_sub(1) {
-                    out.extend_from_slice(&(c.add_node(0).index() as u16).to_le_bytes());
-                }
-                out.push(0xfb);
-            }
-        }
-    }
-    Ok(out)
-}
-
-impl<Ix: IndexType + Send + Sync> M<Ix> {
-    fn node_args(&self, s: &St<Ix>) -> Vec<usize> {
-        if self.fill.is_some() {
-            let n = s.hi.0;
-            let mut v = vec![0, 1, 2];
-            for x in n.saturating_sub(2)..=n {
-                v.push(x);
-            }
-            v.push(END);
-            v.sort();
-            v.dedup();
-            v
-        } else {
-            let mut v: Vec<usize> = (0..=self.max_slots.0).collect();
-            v.push(END);
-            v
-        }
-    }
-    fn edge_args(&self, s: &St<Ix>) -> Vec<usize> {
-        if self.fill.is_some() {
-            let n = s.hi.1;
-            let mut v = vec![0, 1, 2];
-            for x in n.saturating_sub(2)..=n {
-                v.push(x);
-            }
-            v.push(END);
-            v.sort();
-            v.dedup();
-            v
-        } else {
-            let mut v: Vec<usize> = (0..=self.max_slots.1).collect();
-            v.push(END);
-            v
-        }
-    }
-    fn battery(&self, s: &St<Ix>) -> Result<(), StepErr> {
-        let na = self.node_args(s);
-        let ea = self.edge_args(s);
-        on_ref!(s, g => {
-            multi_battery!(g, &s.m, Ix, &na, &ea)?;
-            for &a in &na {
-                if g.contains_node(ni(a)) != s.m.has_node(a) {
-                    return Err(err("StableGraph::contains_node", "differs from node liveness", format!("node {}", a)));
-                }
-            }
-            if g.node_bound() != s.m.node_bound() {
-                return Err(err("NodeIndexable::node_bound", "is not (highest live node index + 1)", format!("got {} want {}", g.node_bound(), s.m.node_bound())));
-            }
-            if g.edge_bound() != s.m.edge_bound() {
-                return Err(err("EdgeIndexable::edge_bound", "is not (highest live edge index + 1)", format!("got {} want {}", g.edge_bound(), s.m.edge_bound())));
-            }
-            Ok(())
-        })
-    }
-    fn expect_equal(&self, s: &St<Ix>, call: &str) -> Result<(), StepErr> {
-        let got = on_ref!(s, g => read_structure(g)).map_err(|e| err(call, "structure corrupt", e))?;
-        if normalized(&got) != normalized(&s.m) {
-            return Err(err(call, "resulting graph differs from the model multigraph (indices, weights, endpoints, neighbour order)", format!("got {:?} want {:?}", normalized(&got), normalized(&s.m))));
-        }
-        Ok(())
-    }
-    fn observe_all(&self, s: &St<Ix>) -> Result<Vec<u8>, StepErr> {
-        // everything the property calls "observable": abstract structure + the indices future insertions receive
-        let got = on_ref!(s, g => read_structure(g)).map_err(|e| err("observation", "structure corrupt", e))?;
-        let mut k = format!("{:?}|{}|{}|", normalized(&got), on_ref!(s, g => g.node_count()), on_ref!(s, g => g.edge_count())).into_bytes();
-        let p = guarded(|| on_ref!(s, g => probes(g, s.hi, self.fill.is_none()))).map_err(|m| err("add_node/add_edge (probe on a clone)", "a later valid call panics", m))?.map_err(|e| err("probe", "failed", e))?;
-        k.extend(p);
-        Ok(k)
-    }
-}
-
-impl<Ix: IndexType + Send + Sync> Machine for M<Ix> {
-    type S = St<Ix>;
-    type Op = Op;
-    fn name(&self) -> String {
-        format!("StableGraph<{}>-N{}-M{}{}{}", self.ixname, self.max_nodes, self.max_edges, self.fill.map(|f| format!("-filled-{}n-{}e{}", f.0, f.1, if f.2 { "-vacancy" } else { "" })).unwrap_or_default(), if self.full_alphabet { "" } else { "-core" })
-    }
-    fn bounds(&self) -> String {
-        format!("at most {} live nodes / {} live edges, node / edge indices below {:?}, weights {{0,1}}, index arguments over all slots, one beyond and end(); directed and undirected{}", self.max_nodes, self.max_edges, self.max_slots, self.fill.map(|f| format!("; initial fill {:?}", f)).unwrap_or_default())
-    }
-    fn inits(&self) -> Vec<St<Ix>> {
-        let mut v = vec![];
-        match self.fill {
-            None => {
-                v.push(St { g: G::D(StableGraph::with_capacity(0, 0)), m: RefMulti::new(true), hi: (0, 0) });
-                v.push(St { g: G::U(StableGraph::with_capacity(0, 0)), m: RefMulti::new(false), hi: (0, 0) });
-                v.push(St { g: G::D(StableGraph::default()), m: RefMulti::new(true), hi: (0, 0) });
-            }
-            Some((fnodes, fedges, vacancy)) => {
-                let mut m = RefMulti::new(true);
-                let mut g: StableGraph<u16, u16, Directed, Ix> = StableGraph::with_capacity(0, 0);
-                for i in 0..fnodes {
-                    g.add_node((i % 2) as u16);
-                    m.add_node_at(i, (i % 2) as u16);
-                }
-                for e in 0..fedges {
-                    let (a, b) = (e % 2, (e / 2) % 2);
-                    g.add_edge(ni(a), ni(b), (e % 2) as u16);
-                    m.add_edge_at(e, a, b, (e % 2) as u16);
-                }
-                if vacancy {
-                    // one vacancy below the bound for nodes and (if there are edges) for edges
-                    if fedges > 3 {
-                        g.remove_edge(ei(2));
-                        m.remove_edge_stable(2);
-                    }
-                    if fnodes > 5 {
-                        g.remove_node(ni(3));
-                        m.remove_node_stable(3);
-                    }
-                }
-                v.push(St { g: G::D(g), m, hi: (fnodes, fedges) });
-            }
-        }
-        v
-    }
-    fn check(&self, s: &St<Ix>) -> Result<(), StepErr> {
-        self.battery(s)
-    }
-    fn ops(&self, s: &St<Ix>) -> Vec<Op> {
-        let m = &s.m;
-        let na = self.node_args(s);
-        let ea = self.edge_args(s);
-        let mut v = vec![];
-        let nodes_full = m.node_count() >= self.max_nodes;
-        let edges_full = m.edge_count() >= self.max_edges;
-        let node_limit = m.node_count() >= ix_max::<Ix>();
-        let edge_limit = m.edge_count() >= ix_max::<Ix>();
-        // a new index beyond the slot bound would leave the universe: only add while a slot is free or bound not reached
-        let node_room = s.hi.0 < self.max_slots.0 || m.node_count() < s.hi.0;
-        let edge_room = s.hi.1 < self.max_slots.1 || m.edge_count() < s.hi.1;
-        if (!nodes_full && node_room) || node_limit {
-            v.push(Op::AddNode(1));
-            v.push(Op::TryAddNode(0));
-        }
-        for &a in &na {
-            for &b in &na {
-                let present = m.has_node(a) && m.has_node(b);
-                let can_add = (!edges_full && edge_room) || edge_limit;
-                if !present || can_add {
-                    v.push(Op::AddEdge(a, b, 1));
-                    v.push(Op::TryAddEdge(a, b, 0));
-                }
-                if !present || can_add || !m.edges_between(a, b).is_empty() {
-                    v.push(Op::UpdateEdge(a, b, 0));
-                    v.push(Op::TryUpdateEdge(a, b, 1));
-                }
-            }
-        }
-        for &a in &na {
-            v.push(Op::RemoveNode(a));
-        }
-        for &e in &ea {
-            v.push(Op::RemoveEdge(e));
-        }
-        v.push(Op::Reverse);
-        v.push(Op::Clear);
-        v.push(Op::ClearEdges);
-        v.push(Op::RetainAll);
-        if !self.full_alphabet {
-            return v;
-        }
-        for &a in &na {
-            v.push(Op::NodeWeightMut(a, 1));
-            v.push(Op::IndexMutNode(a, 0));
-        }
-        for &e in &ea {
-            v.push(Op::EdgeWeightMut(e, 1));
-            v.push(Op::IndexMutEdge(e, 0));
-        }
-        for &a in &na {
-            for &b in &na {
-                v.push(Op::IndexTwice(0, a, b));
-            }
-            for &e in &ea {
-                v.push(Op::IndexTwice(1, a, e));
-            }
-        }
-        for &e in &ea {
-            for &f in &ea {
-                v.push(Op::IndexTwice(2, e, f));
-            }
-        }
-        v.push(Op::WeightsMutFlip(true));
-        v.push(Op::WeightsMutFlip(false));
-        for k in 0..2u16 {
-            v.push(Op::RetainNodes(k));
-            v.push(Op::RetainEdges(k));
-        }
-        v.push(Op::Map);
-        for pn in 0..3u8 {
-            for pe in 0..3u8 {
-                v.push(Op::FilterMap(pn, pe));
-            }
-        }
-        if self.fill.is_none() {
-            // every single triple over all slots below the bound (vacant, live, beyond the current length), and some pairs
-            let idx: Vec<usize> = (0..self.max_slots.0).collect();
-            let would_fit = |l: &Vec<(usize, usize, u16)>| {
-                let mut live: Vec<usize> = m.live_nodes();
-                for &(a, b, _) in l {
-                    for x in [a, b] {
-                        if !live.contains(&x) {
-                            live.push(x);
-                        }
-                    }
-                }
-                live.len() <= self.max_nodes && m.edge_count() + l.len() <= self.max_edges && edge_room
-            };
-            v.push(Op::ExtendWithEdges(vec![]));
-            for &a in &idx {
-                for &b in &idx {
-                    let l = vec![(a, b, 1u16)];
-                    if would_fit(&l) {
-                        v.push(Op::ExtendWithEdges(l));
-                    }
-                    for &c in &idx {
-                        let l2 = vec![(a, b, 1u16), (c, a, 0u16)];
-                        if m.node_count() <= 1 && would_fit(&l2) {
-                            v.push(Op::ExtendWithEdges(l2));
-                        }
-                    }
-                }
-            }
-            if m.node_count() == 0 && s.hi == (0, 0) {
-                for &a in &idx {
-                    for &b in &idx {
-                        v.push(Op::FromEdges(vec![(a, b, 1)]));
-                    }
-                }
-            }
-        }
-        v.push(Op::CloneOp);
-        v.push(Op::CloneFrom);
-        v.push(Op::ViaGraph);
-        if !nodes_full && node_room {
-            v.push(Op::BuildAddNode(1));
-        }
-        for &a in &na {
-            for &b in &na {
-                if a != END && b != END && m.has_node(a) && m.has_node(b) {
-                    if !edges_full && edge_room {
-                        v.push(Op::BuildAddEdge(a, b, 1));
-                    }
-                    if (!edges_full && edge_room) || !m.edges_between(a, b).is_empty() {
-                        v.push(Op::BuildUpdateEdge(a, b, 0));
-                    }
-                }
-            }
-        }
-        v
-    }
-    fn step(&self, s: &mut St<Ix>, op: &Op) -> Result<bool, StepErr> {
-        let node_limit = s.m.node_count() >= ix_max::<Ix>();
-        let edge_limit = s.m.edge_count() >= ix_max::<Ix>();
-        let mut failing = false;
-        // failing operations must leave *every* observable aspect unchanged, including the indices later insertions get
-        let obs_before = self.observe_all(s)?;
-        let call = op_call(op);
-        match op.clone() {
-            Op::AddNode(w) | Op::TryAddNode(w) | Op::BuildAddNode(w) => {
-                let r: Result<Result<usize, String>, String> = guarded(|| on!(s, g => match op {
-                    Op::AddNode(_) => Ok(g.add_node(w).index()),
-                    Op::TryAddNode(_) => g.try_add_node(w).map(|x| x.index()).map_err(|e| format!("{:?}", e)),
-                    _ => Ok(petgraph::data::Build::add_node(g, w).index()),
-                }));
-                if node_limit {
-                    failing = true;
-                    match (&r, op) {
-                        (Err(_), Op::AddNode(_)) | (Err(_), Op::BuildAddNode(_)) => {}
-                        (Ok(Err(e)), Op::TryAddNode(_)) if e == "NodeIxLimit" => {}
-                        _ => return Err(err(call, "every index of the index type is live: expected the documented panic / Err(NodeIxLimit)", format!("got {:?}", r))),
-                    }
-                } else {
-                    match r {
-                        Ok(Ok(i)) if !s.m.has_node(i) && i < ix_max::<Ix>() => {
-                            s.m.add_node_at(i, w);
-                            s.hi.0 = s.hi.0.max(i + 1);
-                        }
-                        _ => return Err(err(call, "must succeed and return an index that is not currently live", format!("got {:?} live {:?}", r, s.m.live_nodes()))),
-                    }
-                }
-            }
-            Op::AddEdge(a, b, w) | Op::TryAddEdge(a, b, w) | Op::BuildAddEdge(a, b, w) | Op::UpdateEdge(a, b, w) | Op::TryUpdateEdge(a, b, w) | Op::BuildUpdateEdge(a, b, w) => {
-                let update = matches!(op, Op::UpdateEdge(..) | Op::TryUpdateEdge(..) | Op::BuildUpdateEdge(..));
-                let r: Result<Result<usize, String>, String> = guarded(|| on!(s, g => match op {
-                    Op::AddEdge(..) => Ok(g.add_edge(ni(a), ni(b), w).index()),
-                    Op::TryAddEdge(..) => g.try_add_edge(ni(a), ni(b), w).map(|x| x.index()).map_err(|e| format!("{:?}", e)),
-                    Op::BuildAddEdge(..) => petgraph::data::Build::add_edge(g, ni(a), ni(b), w).map(|x| x.index()).ok_or("None".to_string()),
-                    Op::UpdateEdge(..) => Ok(g.update_edge(ni(a), ni(b), w).index()),
-                    Op::TryUpdateEdge(..) => g.try_update_edge(ni(a), ni(b), w).map(|x| x.index()).map_err(|e| format!("{:?}", e)),
-                    _ => Ok(petgraph::data::Build::update_edge(g, ni(a), ni(b), w).index()),
-                }));
-                let absent = !s.m.has_node(a) || !s.m.has_node(b);
-                let existing = if update { s.m.edges_between(a, b) } else { vec![] };
-                if absent || (existing.is_empty() && edge_limit) {
-                    failing = true;
-                    let ok = match (&r, op) {
-                        (Err(_), Op::AddEdge(..)) | (Err(_), Op::BuildAddEdge(..)) | (Err(_), Op::UpdateEdge(..)) | (Err(_), Op::BuildUpdateEdge(..)) => true,
-                        (Ok(Err(e)), Op::TryAddEdge(..)) | (Ok(Err(e)), Op::TryUpdateEdge(..)) => {
-                            let missed_ok = [a, b].iter().any(|&x| !s.m.has_node(x) && (*e == format!("NodeMissed({})", x) || (x == END && e.starts_with("NodeMissed("))));
-                            (absent && missed_ok) || (edge_limit && e == "EdgeIxLimit")
-                        }
-                        _ => false,
-                    };
-                    if !ok {
-                        return Err(err(call, "missing / vacant endpoint or capacity: expected the documented panic / Err(NodeMissed(bad index) | EdgeIxLimit)", format!("a {} b {} got {:?}", a, b, r)));
-                    }
-                } else if existing.is_empty() {
-                    match r {
-                        Ok(Ok(i)) if !s.m.has_edge(i) && i < ix_max::<Ix>() => {
-                            s.m.add_edge_at(i, a, b, w);
-                            s.hi.1 = s.hi.1.max(i + 1);
-                        }
-                        _ => return Err(err(call, "must succeed and return an edge index that is not currently live", format!("a {} b {} got {:?} live {:?}", a, b, r, s.m.live_edges()))),
-                    }
-                } else {
-                    match r {
-                        Ok(Ok(i)) if existing.contains(&i) => s.m.edges[i].as_mut().unwrap().2 = w,
-                        _ => return Err(err(call, "an edge a->b existed: expected the index of one of them", format!("a {} b {} got {:?} candidates {:?}", a, b, r, existing))),
-                    }
-                }
-            }
-            Op::RemoveNode(a) => {
-                let r = guarded(|| on!(s, g => g.remove_node(ni(a)))).map_err(|m| err(call, "panic", m))?;
-                let want = s.m.remove_node_stable(a);
-                if r != want {
-                    return Err(err(call, "returned weight differs (None for an absent or vacant node)", format!("node {} got {:?} want {:?}", a, r, want)));
-                }
-                failing = want.is_none();
-            }
-            Op::RemoveEdge(e) => {
-                let r = guarded(|| on!(s, g => g.remove_edge(ei(e)))).map_err(|m| err(call, "panic", m))?;
-                let want = s.m.remove_edge_stable(e);
-                if r != want {
-                    return Err(err(call, "returned weight differs (None for an absent or vacant edge)", format!("edge {} got {:?} want {:?}", e, r, want)));
-                }
-                failing = want.is_none();
-            }
-            Op::NodeWeightMut(a, w) => {
-                let r = guarded(|| on!(s, g => g.node_weight_mut(ni(a)).map(|x| { *x = w; }).is_some())).map_err(|m| err(call, "panic", m))?;
-                if r != s.m.has_node(a) {
-                    return Err(err(call, "Some/None differs from node liveness", format!("node {}", a)));
-                }
-                if r {
-                    s.m.nodes[a] = Some(w);
-                } else {
-                    failing = true;
-                }
-            }
-            Op::EdgeWeightMut(e, w) => {
-                let r = guarded(|| on!(s, g => g.edge_weight_mut(ei(e)).map(|x| { *x = w; }).is_some())).map_err(|m| err(call, "panic", m))?;
-                if r != s.m.has_edge(e) {
-                    return Err(err(call, "Some/None differs from edge liveness", format!("edge {}", e)));
-                }
-                if r {
-                    s.m.edges[e].as_mut().unwrap().2 = w;
-                } else {
-                    failing = true;
-                }
-            }
-            Op::IndexMutNode(a, w) => {
-                let r = guarded(|| on!(s, g => { g[ni(a)] = w; }));
-                if r.is_ok() != s.m.has_node(a) {
-                    return Err(err(call, "panics exactly for a node that is not live: violated", format!("node {} result {:?}", a, r)));
-                }
-                if r.is_ok() {
-                    s.m.nodes[a] = Some(w);
-                } else {
-                    failing = true;
-                }
-            }
-            Op::IndexMutEdge(e, w) => {
-                let r = guarded(|| on!(s, g => { g[ei(e)] = w; }));
-                if r.is_ok() != s.m.has_edge(e) {
-                    return Err(err(call, "panics exactly for an edge that is not live: violated", format!("edge {} result {:?}", e, r)));
-                }
-                if r.is_ok() {
-                    s.m.edges[e].as_mut().unwrap().2 = w;
-                } else {
-                    failing = true;
-                }
-            }
-            Op::IndexTwice(kind, i, j) => {
-                let r = guarded(|| on!(s, g => match kind {
-                    0 => { let (x, y) = g.index_twice_mut(ni::<Ix>(i), ni::<Ix>(j)); std::mem::swap(x, y); }
-                    1 => { let (x, y) = g.index_twice_mut(ni::<Ix>(i), ei::<Ix>(j)); std::mem::swap(x, y); }
-                    _ => { let (x, y) = g.index_twice_mut(ei::<Ix>(i), ei::<Ix>(j)); std::mem::swap(x, y); }
-                }));
-                let (p1, p2, same) = match kind {
-                    0 => (s.m.has_node(i), s.m.has_node(j), i == j),
-                    1 => (s.m.has_node(i), s.m.has_edge(j), false),
-                    _ => (s.m.has_edge(i), s.m.has_edge(j), i == j),
-                };
-                let should_work = p1 && p2 && !same;
-                if r.is_ok() != should_work {
-                    return Err(err(call, "panics exactly when the indices are equal or not found: violated", format!("kind {} i {} j {} result {:?}", kind, i, j, r)));
-                }
-                if should_work {
-                    let get = |m: &RefMulti, node: bool, x: usize| if node { m.nodes[x].unwrap() } else { m.edges[x].unwrap().2 };
-                    let (n1, n2) = (kind <= 1, kind == 0);
-                    let (v1, v2) = (get(&s.m, n1, i), get(&s.m, n2, j));
-                    let set = |m: &mut RefMulti, node: bool, x: usize, v: u16| if node { m.nodes[x] = Some(v) } else { m.edges[x].as_mut().unwrap().2 = v };
-                    set(&mut s.m, n1, i, v2);
-                    set(&mut s.m, n2, j, v1);
-                } else {
-                    failing = true;
-                }
-            }
-            Op::WeightsMutFlip(nodes) => {
-                guarded(|| on!(s, g => if nodes { for w in g.node_weights_mut() { *w = 1 - *w; } } else { for w in g.edge_weights_mut() { *w = 1 - *w; } })).map_err(|m| err(call, "panic", m))?;
-                if nodes {
-                    for w in s.m.nodes.iter_mut().flatten() {
-                        *w = 1 - *w;
-                    }
-                } else {
-                    for e in s.m.edges.iter_mut().flatten() {
-                        e.2 = 1 - e.2;
-                    }
-                }
-            }
-            Op::Reverse => {
-                guarded(|| on!(s, g => g.reverse())).map_err(|m| err(call, "panic", m))?;
-                s.m.reverse();
-            }
-            Op::Clear => {
-                guarded(|| on!(s, g => g.clear())).map_err(|m| err(call, "panic", m))?;
-                s.m.clear();
-                s.hi = (0, 0);
-            }
-            Op::ClearEdges => {
-                guarded(|| on!(s, g => g.clear_edges())).map_err(|m| err(call, "panic", m))?;
-                s.m.clear_edges();
-                s.hi.1 = 0;
-            }
-            Op::RetainAll => {
-                // keeps everything; runs the implementation's own free-list check in debug builds
-                let mut seen = vec![];
-                guarded(|| on!(s, g => { g.retain_nodes(|_, i| { seen.push(i.index()); true }); g.retain_edges(|_, _| true); })).map_err(|m| err("StableGraph::retain_nodes", &format!("panic on a valid call: {}", vh::guard::panic_class(&m)), m))?;
-                if seen != s.m.live_nodes() {
-                    return Err(err("StableGraph::retain_nodes", "closure is not called once per live node", format!("got {:?} want {:?}", seen, s.m.live_nodes())));
-                }
-            }
-            Op::RetainNodes(keep) => {
-                guarded(|| on!(s, g => g.retain_nodes(|fz, i| fz[i] == keep))).map_err(|m| err(call, &format!("panic on a valid call: {}", vh::guard::panic_class(&m)), m))?;
-                for a in s.m.live_nodes() {
-                    if s.m.nodes[a] != Some(keep) {
-                        s.m.remove_node_stable(a);
-                    }
-                }
-            }
-            Op::RetainEdges(keep) => {
-                guarded(|| on!(s, g => g.retain_edges(|fz, e| fz[e] == keep))).map_err(|m| err(call, &format!("panic on a valid call: {}", vh::guard::panic_class(&m)), m))?;
-                for e in s.m.live_edges() {
-                    if s.m.edges[e].unwrap().2 != keep {
-                        s.m.remove_edge_stable(e);
-                    }
-                }
-            }
-            Op::Map => {
-                let mut seen_n = vec![];
-                let mut seen_e = vec![];
-                guarded(|| on!(s, g => { let h = g.map(|i, w| { seen_n.push((i.index(), *w)); 1 - *w }, |e, w| { seen_e.push((e.index(), *w)); *w }); *g = h; })).map_err(|m| err(call, "panic", m))?;
-                let want_n: Vec<(usize, u16)> = s.m.live_nodes().into_iter().map(|i| (i, s.m.nodes[i].unwrap())).collect();
-                let want_e: Vec<(usize, u16)> = s.m.live_edges().into_iter().map(|e| (e, s.m.edges[e].unwrap().2)).collect();
-                if seen_n != want_n || seen_e != want_e {
-                    return Err(err(call, "closures are not called once per live element with its index and weight", format!("nodes {:?} edges {:?}", seen_n, seen_e)));
-                }
-                for w in s.m.nodes.iter_mut().flatten() {
-                    *w = 1 - *w;
-                }
-            }
-            Op::FilterMap(pn, pe) => {
-                let keepn = |w: u16| pn == 2 || w == pn as u16;
-                let keepe = |w: u16| pe == 2 || w == pe as u16;
-                guarded(|| on!(s, g => { let h = g.filter_map(|_, w| if keepn(*w) { Some(*w) } else { None }, |_, w| if keepe(*w) { Some(*w) } else { None }); *g = h; })).map_err(|m| err(call, &format!("panic on a valid call: {}", vh::guard::panic_class(&m)), m))?;
-                for a in s.m.live_nodes() {
-                    if !keepn(s.m.nodes[a].unwrap()) {
-                        s.m.remove_node_stable(a);
-                    }
-                }
-                for e in s.m.live_edges() {
-                    if !keepe(s.m.edges[e].unwrap().2) {
-                        s.m.remove_edge_stable(e);
-                    }
-                }
-                // kept elements keep their indices; the neighbour order of the rebuilt graph is adopted
-                let got = on_ref!(s, g => read_structure(g)).map_err(|e| err(call, "structure corrupt", e))?;
-                let strip = |m: &RefMulti| { let mut m = normalized(m); for l in m.out.iter_mut().chain(m.inn.iter_mut()) { l.sort(); } m };
-                if strip(&got) != strip(&s.m) {
-                    return Err(err(call, "kept nodes and edges do not maintain their indices / weights / endpoints", format!("node keep {} edge keep {} got {:?} want {:?}", pn, pe, normalized(&got), normalized(&s.m))));
-                }
-                s.m = got;
-                s.hi = (s.m.node_bound(), s.m.edge_bound());
-            }
-            Op::ExtendWithEdges(list) | Op::FromEdges(list) => {
-                let from = matches!(op, Op::FromEdges(_));
-                let l2: Vec<(NodeIndex<Ix>, NodeIndex<Ix>, u16)> = list.iter().map(|&(a, b, w)| (ni(a), ni(b), w)).collect();
-                // one edge at a time so that the index each new edge received can be read back
-                if from {
-                    let d = s.m.directed;
-                    s.m = RefMulti::new(d);
-                    s.hi = (0, 0);
-                    guarded(|| on!(s, g => { *g = StableGraph::from_edges(l2.clone()); })).map_err(|m| err(call, "panic", m))?;
-                    let got = on_ref!(s, g => read_structure(g)).map_err(|e| err(call, "structure corrupt", e))?;
-                    for &(a, b, _) in &list {
-                        for x in [a, b] {
-                            if !s.m.has_node(x) {
-                                s.m.add_node_at(x, 0);
-                            }
-                        }
-                    }
-                    // edge indices: any non-live index; adopt after checking the multiset of edges
-                    let mut want: Vec<(usize, usize, u16)> = list.clone();
-                    let mut have: Vec<(usize, usize, u16)> = got.edges.iter().flatten().cloned().collect();
-                    want.sort();
-                    have.sort();
-                    if want != have || got.live_nodes() != s.m.live_nodes() {
-                        return Err(err(call, "graph does not consist of exactly the listed edges and the nodes they name", format!("list {:?} got {:?}", list, normalized(&got))));
-                    }
-                    s.m = got;
-                    s.hi = (s.m.node_bound(), s.m.edge_bound());
-                } else {
-                    for (k, &(a, b, w)) in list.iter().enumerate() {
-                        let before_edges = s.m.live_edges();
-                        guarded(|| on!(s, g => g.extend_with_edges([l2[k]]))).map_err(|m| err(call, &format!("panic on a valid call: {}", vh::guard::panic_class(&m)), m))?;
-                        for x in [a, b] {
-                            if !s.m.has_node(x) {
-                                s.m.add_node_at(x, 0);
-                                s.hi.0 = s.hi.0.max(x + 1);
-                            }
-                        }
-                        let now: Vec<usize> = on_ref!(s, g => g.edge_indices().map(|e| e.index()).collect());
-                        let newe: Vec<usize> = now.iter().cloned().filter(|e| !before_edges.contains(e)).collect();
-                        if newe.len() != 1 || now.len() != before_edges.len() + 1 {
-                            return Err(err(call, "does not add exactly one edge per listed item", format!("item {:?} edges before {:?} after {:?}", (a, b, w), before_edges, now)));
-                        }
-                        s.m.add_edge_at(newe[0], a, b, w);
-                        s.hi.1 = s.hi.1.max(newe[0] + 1);
-                    }
-                }
-            }
-            Op::CloneOp => {
-                on!(s, g => { *g = g.clone(); });
-            }
-            Op::CloneFrom => {
-                on!(s, g => {
-                    let mut h = StableGraph::with_capacity(0, 0);
-                    let x = h.add_node(7);
-                    let y = h.add_node(8);
-                    h.add_edge(x, y, 9);
-                    h.remove_node(x);
-                    h.clone_from(g);
-                    *g = h;
-                });
-            }
-            Op::ViaGraph => {
-                let r = guarded(|| on!(s, g => { let c: Graph<u16, u16, _, Ix> = Graph::from(g.clone()); let back: StableGraph<u16, u16, _, Ix> = StableGraph::from(c.clone()); let cs: Vec<(usize, usize, u16)> = c.raw_edges().iter().map(|e| (e.source().index(), e.target().index(), e.weight)).collect(); let cn: Vec<u16> = c.raw_nodes().iter().map(|n| n.weight).collect(); *g = back; (cn, cs) })).map_err(|m| err(call, "panic", m))?;
-                // compaction preserving the order of live elements
-                let ln = s.m.live_nodes();
-                let le = s.m.live_edges();
-                let newn = |o: usize| ln.iter().position(|&x| x == o).unwrap();
-                let want_n: Vec<u16> = ln.iter().map(|&i| s.m.nodes[i].unwrap()).collect();
-                let want_e: Vec<(usize, usize, u16)> = le.iter().map(|&e| { let x = s.m.edges[e].unwrap(); (newn(x.0), newn(x.1), x.2) }).collect();
-                if r.0 != want_n || r.1 != want_e {
-                    return Err(err("Graph::from(StableGraph)", "is not the order-preserving compaction of the live nodes and edges", format!("got nodes {:?} edges {:?} want nodes {:?} edges {:?}", r.0, r.1, want_n, want_e)));
-                }
-                let got = on_ref!(s, g => read_structure(g)).map_err(|e| err("StableGraph::from(Graph)", "structure corrupt", e))?;
-                let mut want = RefMulti::new(s.m.directed);
-                for (i, w) in want_n.iter().enumerate() {
-                    want.add_node_at(i, *w);
-                }
-                for (k, e) in want_e.iter().enumerate() {
-                    want.add_edge_at(k, e.0, e.1, e.2);
-                }
-                let strip = |m: &RefMulti| { let mut m = normalized(m); for l in m.out.iter_mut().chain(m.inn.iter_mut()) { l.sort(); } m };
-                if strip(&got) != strip(&want) {
-                    return Err(err("StableGraph::from(Graph)", "does not preserve indices, weights and endpoints", format!("got {:?} want {:?}", normalized(&got), normalized(&want))));
-                }
-                s.m = got;
-                s.hi = (s.m.node_bound(), s.m.edge_bound());
-            }
-        }
-        s.m.trim();
-        self.expect_equal(s, call).map_err(|(c, sy, d)| (c, sy, format!("after {:?}: {}", op, d)))?;
-        self.battery(s).map_err(|(c, sy, d)| (c, sy, format!("after {:?}: {}", op, d)))?;
-        let obs_after = self.observe_all(s).map_err(|(c, sy, d)| (c, sy, format!("after {:?}: {}", op, d)))?;
-        if failing && obs_after != obs_before {
-            return Err(err(call, "a call that reports failure / absence changed an observable aspect of the graph", format!("op {:?}: before {} after {}", op, String::from_utf8_lossy(&obs_before), String::from_utf8_lossy(&obs_after))));
-        }
-        s.m.check_self().map_err(|e| err("harness", "model inconsistent", e))?;
-        Ok(s.m.node_count() <= self.max_nodes && s.m.edge_count() <= self.max_edges && s.hi.0 <= self.max_slots.0 && s.hi.1 <= self.max_slots.1)
-    }
-    fn key(&self, s: &St<Ix>) -> Vec<u8> {
-        let mut k = format!("{:?}|", normalized(&s.m)).into_bytes();
-        match on_ref!(s, g => probes(g, s.hi, self.fill.is_none())) {
-            Ok(p) => k.extend(p),
-            Err(_) => k.push(0xff),
-        }
-        k
-    }
-    fn nontrivial(&self, s: &St<Ix>) -> bool {
-        // at least one vacancy below a bound
-        s.m.node_count() < s.m.node_bound() || s.m.edge_count() < s.m.edge_bound()
-    }
-    fn calls_per_step(&self) -> u64 {
-        400
-    }
-}
-
-fn op_call(op: &Op) -> &'static str {
-    match op {
-        Op::AddNode(..) => "StableGraph::add_node",
-        Op::TryAddNode(..) => "StableGraph::try_add_node",
-        Op::AddEdge(..) => "StableGraph::add_edge",
-        Op::TryAddEdge(..) => "StableGraph::try_add_edge",
-        Op::UpdateEdge(..) => "StableGraph::update_edge",
-        Op::TryUpdateEdge(..) => "StableGraph::try_update_edge",
-        Op::RemoveNode(..) => "StableGraph::remove_node",
-        Op::RemoveEdge(..) => "StableGraph::remove_edge",
-        Op::NodeWeightMut(..) => "StableGraph::node_weight_mut",
-        Op::EdgeWeightMut(..) => "StableGraph::edge_weight_mut",
-        Op::IndexMutNode(..) => "IndexMut<NodeIndex>",
-        Op::IndexMutEdge(..) => "IndexMut<EdgeIndex>",
-        Op::IndexTwice(..) => "StableGraph::index_twice_mut",
-        Op::WeightsMutFlip(..) => "StableGraph::node_weights_mut/edge_weights_mut",
-        Op::Reverse => "StableGraph::reverse",
-        Op::Clear => "StableGraph::clear",
-        Op::ClearEdges => "StableGraph::clear_edges",
-        Op::RetainNodes(..) => "StableGraph::retain_nodes",
-        Op::RetainEdges(..) => "StableGraph::retain_edges",
-        Op::RetainAll => "StableGraph::retain_nodes",
-        Op::Map => "StableGraph::map",
-        Op::FilterMap(..) => "StableGraph::filter_map",
-        Op::ExtendWithEdges(..) => "StableGraph::extend_with_edges",
-        Op::FromEdges(..) => "StableGraph::from_edges",
-        Op::CloneOp => "StableGraph::clone",
-        Op::CloneFrom => "StableGraph::clone_from",
-        Op::ViaGraph => "StableGraph::from(Graph::from(stable))",
-        Op::BuildAddNode(..) => "Build::add_node",
-        Op::BuildAddEdge(..) => "Build::add_edge",
-        Op::BuildUpdateEdge(..) => "Build::update_edge",
-    }
-}
-
-fn mk<Ix: IndexType + Send + Sync + 'static>(ixname: &'static str, n: usize, m: usize, slots: (usize, usize), full: bool) -> Box<dyn Part> {
-    e1::part(M::<Ix> { ixname, max_nodes: n, max_edges: m, max_slots: slots, fill: None, full_alphabet: full, _p: Default::default() })
-}
-
 fn main() {
-    main_check(
-        Spec {
-            prop: "C02",
-            rule: "E1: BFS over operation histories of the real StableGraph<u16,u16,Ty,Ix> in lockstep with RefMulti (stable index policy: add_* may return any index that is not live); a state is the abstract structure plus the index sequences a clone hands out next (both free lists, forward and backward links); non-trivial = a vacancy exists below node_bound or edge_bound".into(),
-            explanation: "every transition = one real public call (including every failing try_* form: absent, vacant and out-of-range endpoints, each with and without vacant slots available) compared with the model, then exact structural comparison read through the public API, the full query battery incl. contains_node / node_bound / edge_bound, and for failing calls equality of the complete observation (incl. free-slot probes) before and after; debug assertions of petgraph (check_free_lists) are live in the default profile and the whole exploration is repeated without them (verif-nda build)".into(),
-            assumptions: vec!["universe bounded (families[*].bounds); u32/usize capacity limits unreachable by execution; u8 capacity explored from near-capacity fills".into()],
-            min_outcomes: 100,
-        },
-        |_| vec![],
-        |a| {
-            let t = a.thorough();
-            let nda = a.profile == "verif-nda";
-            let mut v: Vec<Box<dyn Part>> = vec![];
-            if t {
-                v.push(mk::<u32>("u32", 3, 2, (4, 3), true));
-                v.push(mk::<u32>("u32", 3, 3, (3, 3), false));
-                v.push(mk::<u8>("u8", 2, 2, (3, 3), true));
-                v.push(mk::<u16>("u16", 2, 2, (3, 2), true));
-                v.push(mk::<usize>("usize", 2, 2, (3, 2), true));
-            } else {
-                v.push(mk::<u32>("u32", 2, 2, (3, 2), true));
-                v.push(mk::<u32>("u32", 3, 2, (3, 2), false));
-                v.push(mk::<u8>("u8", 2, 1, (2, 2), true));
-            }
-            for (fnodes, fedges, vac) in [(255usize, 0usize, false), (254, 1, false), (255, 4, true), (2, 255, false), (2, 254, false), (6, 255, true)] {
-                if nda && !t && fedges > 100 {
-                    continue;
-                }
-                let mach = M::<u8> { ixname: "u8", max_nodes: 255, max_edges: 255, max_slots: (255, 255), fill: Some((fnodes, fedges, vac)), full_alphabet: false, _p: Default::default() };
-                let mut lim = Limits::for_args(a);
-                lim.max_depth = Some(if t { 3 } else { 2 });
-                lim.audit_depth = 0;
-                v.push(e1::part_lim(mach, lim));
-            }
-            v
-        },
-    );
+    vh::machines::stable::main_c02()
 }
